@@ -42,6 +42,7 @@ type prodCfg struct {
 	IDBase0      bool    `json:"idBase0"` // broker ids start at 0 instead of 1
 	GrowIc       int     `json:"growIc"`  // > 0: the first interceptor appends this many bytes to the value
 	PanicIc      int     `json:"panicIc"` // 1-based index of an interceptor that panics after logging (0 = none)
+	IcKind       string  `json:"icKind"`  // dynamic type of the interceptors: "" pointer (default), "value" struct value, "func" func adapter
 }
 
 type prodStep struct {
@@ -148,6 +149,26 @@ func (i *vInterceptor) OnSend(m *ProducerMessage) {
 	if i.panics {
 		panic("verif: interceptor panic")
 	}
+}
+
+// the same interceptor behind other dynamic types (a struct value with value receivers, a func adapter):
+// the producer must treat an interceptor alike whatever its dynamic type is
+type vValInterceptor struct{ p *vInterceptor }
+
+func (i vValInterceptor) OnSend(m *ProducerMessage) { i.p.OnSend(m) }
+
+type vFuncInterceptor func(*ProducerMessage)
+
+func (f vFuncInterceptor) OnSend(m *ProducerMessage) { f(m) }
+
+func vWrapIc(kind string, p *vInterceptor) ProducerInterceptor {
+	switch kind {
+	case "value":
+		return vValInterceptor{p}
+	case "func":
+		return vFuncInterceptor(p.OnSend)
+	}
+	return p
 }
 
 type vPartitioner struct {
@@ -387,7 +408,7 @@ func runProducerScenario(t testing.TB, rec *vRec, sc *prodScenario) {
 		config.Producer.Partitioner = func(topic string) Partitioner { return &vPartitioner{NewRandomPartitioner(topic), rec, cfgv.Leaders} }
 	}
 	for i := 0; i < cfgv.Interceptors; i++ {
-		config.Producer.Interceptors = append(config.Producer.Interceptors, &vInterceptor{rec: rec, chain: i + 1, c: c, hdr: v.IsAtLeast(V0_11_0_0), panics: cfgv.PanicIc == i+1, grow: map[bool]int{true: cfgv.GrowIc}[i == 0]})
+		config.Producer.Interceptors = append(config.Producer.Interceptors, vWrapIc(cfgv.IcKind, &vInterceptor{rec: rec, chain: i + 1, c: c, hdr: v.IsAtLeast(V0_11_0_0), panics: cfgv.PanicIc == i+1, grow: map[bool]int{true: cfgv.GrowIc}[i == 0]}))
 	}
 	if cfgv.MaxReqSize > 0 {
 		old := MaxRequestSize
